@@ -11,7 +11,10 @@ import (
 
 // Streams, encoders / decoders, byte buffers and scanners over the abstract JSON domain.
 
-type textBytes struct{ lines []Value } // a non-JSON text: its lines
+type textBytes struct { // a non-JSON text: its lines
+	lines    []Value
+	overlong int // 1-based index of a line longer than bufio.Scanner's buffer (0 = none)
+}
 
 type streamState struct {
 	tree     *jval
@@ -27,8 +30,10 @@ type encAbs struct{ w Value }
 type decAbs struct{ r Value }
 type bufAbs struct{ content Value }
 type scanAbs struct {
-	lines []Value
-	i     int
+	lines    []Value
+	i        int
+	overlong int
+	tooLong  bool
 }
 
 func (ex *Exec) stream(p Ptr) *streamState {
@@ -296,6 +301,7 @@ func init() {
 		sc := &scanAbs{}
 		if tb, ok := data.(*textBytes); ok {
 			sc.lines = tb.lines
+			sc.overlong = tb.overlong
 		}
 		c := new(Value)
 		*c = sc
@@ -305,6 +311,11 @@ func init() {
 	reg("(*bufio.Scanner).Buffer", noop)
 	reg("(*bufio.Scanner).Scan", func(ex *Exec, fn *ssa.Function, args []Value, site string) Value {
 		sc := (*args[0].(Ptr).C).(*scanAbs)
+		if sc.overlong > 0 && sc.i+1 == sc.overlong {
+			sc.tooLong = true // the token does not fit the buffer: scanning stops, Err reports bufio.ErrTooLong
+			sc.i = len(sc.lines) + 1
+			return false
+		}
 		if sc.i < len(sc.lines) {
 			sc.i++
 			return true
@@ -328,7 +339,24 @@ func init() {
 		return BytesView{mkStr("")}
 	})
 	reg("(*bufio.Scanner).Text", func(ex *Exec, fn *ssa.Function, args []Value, site string) Value { return scanCur(args) })
-	reg("(*bufio.Scanner).Err", func(ex *Exec, fn *ssa.Function, args []Value, site string) Value { return Iface{} })
+	reg("(*bufio.Scanner).Err", func(ex *Exec, fn *ssa.Function, args []Value, site string) Value {
+		if sc := (*args[0].(Ptr).C).(*scanAbs); sc.tooLong {
+			if g := ex.prog.ImportedPackage("bufio"); g != nil {
+				if v, ok := g.Members["ErrTooLong"].(*ssa.Global); ok {
+					return ex.load(ex.global(v), site)
+				}
+			}
+			return Iface{T: opaqueType, V: &errAbs{site: site, msg: "bufio.Scanner: token too long", kind: "toolong"}}
+		}
+		return Iface{}
+	})
+	reg("(*github.com/protobom/protobom/internal/verifrt.Stream).SetOverlongLine", func(ex *Exec, fn *ssa.Function, args []Value, site string) Value {
+		st := ex.stream(args[0].(Ptr))
+		if st.text != nil {
+			st.text.overlong = int(args[1].(int64))
+		}
+		return nil
+	})
 
 	// ---- verifrt.Stream
 	newStream := func(ex *Exec, st *streamState, site string) Value {
